@@ -58,6 +58,8 @@ ASSUMPTIONS = [
     "as in Optimizer._run / VariationalConvergence.check",
     "for [S,K] samples of VR, CUBO and KLpq the documentation does not fix the reduction; the value may equal "
     "either the estimator over all S*K draws or the mean over S of the K-draw estimators",
+    "whether the draws are distributed according to q is not observable through the objective's value and is "
+    "not asserted (a mutation that mis-assigns slices in CatParameter's setter leaves value and draws consistent)",
     "tolerance 1e-9 * max(1, |expected|, 1e-3 * max|log p|) ; alpha of VR stays 0.05 away from 1 "
     "(division by 1-alpha), hyper-parameters bounded so that densities stay finite in float64",
 ]
@@ -804,7 +806,7 @@ def selftest():
 
 def subchecks(tier):
     return [
-        Sub("exact", body, strategy=cases("posterior"), quick=1600, thorough=120000, pretags=pretags),
-        Sub("pairing", body, strategy=cases("perturbed"), quick=1600, thorough=120000, pretags=pretags),
+        Sub("exact", body, strategy=cases("posterior"), quick=1600, thorough=40000, pretags=pretags),
+        Sub("pairing", body, strategy=cases("perturbed"), quick=1600, thorough=40000, pretags=pretags),
         Sub("grid", body, enumerate=grid, exhaustive=True, pretags=pretags),
     ]
